@@ -66,6 +66,12 @@ pub struct SimState {
     /// "bucket/key" -> object
     pub objects: BTreeMap<String, Obj>,
     pub log: Vec<Req>,
+    /// transport: 0 = the body is written at once; n > 0 = in frames of n bytes, each flushed and separated by a
+    /// (virtual-time) pause so that the client reads them as separate chunks
+    pub frame: usize,
+    /// transport fault: a 200 object response announces its full Content-Length but the connection is closed
+    /// after this many body bytes
+    pub cut_body: Option<usize>,
 }
 
 pub struct Sim {
@@ -189,8 +195,10 @@ impl Sim {
                     let query: Vec<(String, String)> = rawquery.split('&').filter(|s| !s.is_empty()).map(|kv| {
                         match kv.find('=') { Some(i) => (percent_decode(&kv[..i], true), percent_decode(&kv[i + 1..], true)), None => (percent_decode(kv, true), String::new()) }
                     }).collect();
+                    let mut transport = (0usize, None);
                     let resp = {
                         let mut s = st.lock().expect("state");
+                        transport = (s.frame, s.cut_body);
                         let req = Req { index: s.log.len(), method, raw_target: target.clone(), path: percent_decode(rawpath, false), query };
                         s.log.push(req.clone());
                         let scripted = { let mut h = hd.lock().expect("handler"); match h.as_mut() { Some(f) => f(&req, &mut s), None => None } };
@@ -212,7 +220,17 @@ impl Sim {
                     for (k, v) in &resp.headers { out.push_str(&format!("{}: {}\r\n", k, v)); }
                     out.push_str("\r\n");
                     let _ = sock.write_all(out.as_bytes()).await;
-                    let _ = sock.write_all(&resp.body).await;
+                    let is_object_ok = resp.status == 200 && resp.headers.iter().any(|(k, _)| k == "Last-Modified");
+                    let body: &[u8] = match transport.1 { Some(k) if is_object_ok => &resp.body[..k.min(resp.body.len())], _ => &resp.body[..] };
+                    if transport.0 == 0 { let _ = sock.write_all(body).await; }
+                    else {
+                        let _ = sock.set_nodelay(true);
+                        for piece in body.chunks(transport.0) {
+                            let _ = sock.write_all(piece).await;
+                            let _ = sock.flush().await;
+                            tokio::time::sleep(std::time::Duration::from_millis(1)).await;
+                        }
+                    }
                     let _ = sock.shutdown().await;
                 });
             }
@@ -222,7 +240,9 @@ impl Sim {
 
     pub fn set_handler(&self, h: Option<Handler>) { *self.handler.lock().expect("handler") = h; }
     pub fn put(&self, bucket: &str, key: &str, obj: Obj) { self.state.lock().expect("state").objects.insert(format!("{}/{}", bucket, key), obj); }
-    pub fn clear(&self) { let mut s = self.state.lock().expect("state"); s.objects.clear(); s.log.clear(); }
+    pub fn clear(&self) { let mut s = self.state.lock().expect("state"); s.objects.clear(); s.log.clear(); s.frame = 0; s.cut_body = None; }
+    pub fn set_frame(&self, n: usize) { self.state.lock().expect("state").frame = n; }
+    pub fn set_cut_body(&self, k: Option<usize>) { self.state.lock().expect("state").cut_body = k; }
     pub fn clear_log(&self) { self.state.lock().expect("state").log.clear(); }
     pub fn log(&self) -> Vec<Req> { self.state.lock().expect("state").log.clone() }
     pub fn log_len(&self) -> usize { self.state.lock().expect("state").log.len() }
